@@ -140,6 +140,11 @@ func (tds *Conn) NewChannel() (*Channel, error) {
 func (tdsChan *Channel) Reset() {
 	tdsChan.RLock()
 	defer tdsChan.RUnlock()
+	tdsChan.reset()
+}
+
+// reset is Reset for callers that already hold the read lock.
+func (tdsChan *Channel) reset() {
 	if tdsChan.closed {
 		return
 	}
@@ -516,7 +521,9 @@ func (tdsChan *Channel) SendRemainingPackets(ctx context.Context) error {
 
 	// SendRemainingPackets is only called when completing sending
 	// packets to the server and preparing to receive the answer.
-	defer tdsChan.Reset()
+	// The read lock is already held - acquiring it again would deadlock
+	// with a Close waiting for the write lock in the meantime.
+	defer tdsChan.reset()
 	return tdsChan.sendPackets(ctx, false)
 }
 
